@@ -22,6 +22,10 @@ pub enum L {
     ForceWSnd,
     SendOwn,
     CallOwn,
+    /// a waiting send / a call whose future is polled once and dropped if it did not complete
+    SendAbandon,
+    CallAbandon,
+    CallCalAbandon,
 }
 
 pub const WAITING: [L; 5] = [L::SendAddr, L::SendSnd, L::CallCal, L::SendWSnd, L::CallWCal];
@@ -40,6 +44,9 @@ pub fn to_op(l: L, id: u32) -> Op {
         L::ForceWSnd => Op::ForceSend(H::WSnd(0), id),
         L::SendOwn => Op::Send(H::Own(0), id),
         L::CallOwn => Op::Call(H::Own(0), id),
+        L::SendAbandon => Op::SendAbandon(H::Addr(0), id),
+        L::CallAbandon => Op::CallAbandon(H::Addr(0), id),
+        L::CallCalAbandon => Op::CallAbandon(H::Cal(0), id),
     }
 }
 
@@ -50,7 +57,7 @@ pub fn msg_id(c: usize, i: usize) -> u32 {
 /// id of the message an op submits, if any
 pub fn submitted_id(op: &Op) -> Option<u32> {
     match op {
-        Op::Send(_, id) | Op::Call(_, id) | Op::ForceSend(_, id) | Op::Cmd(_, id, _) => Some(*id),
+        Op::Send(_, id) | Op::Call(_, id) | Op::ForceSend(_, id) | Op::Cmd(_, id, _) | Op::SendAbandon(_, id) | Op::CallAbandon(_, id) => Some(*id),
         _ => None,
     }
 }
@@ -346,6 +353,26 @@ fn plain_cases(tier: Tier) -> Vec<Case> {
         for a in seqs(&talpha, 2) {
             for b in seqs(&talpha, 1) {
                 v.push(make_case_gap(&[a.clone(), b], mb));
+            }
+        }
+    }
+    // clients that give up: a send / call future polled once and dropped. Whatever had been
+    // accepted before keeps its order, nothing is handled twice, nobody else is held up
+    let giveup = [L::SendAbandon, L::CallAbandon, L::CallCalAbandon];
+    let around = [L::SendAddr, L::CallAddr, L::CallCal];
+    for &mb in &mailboxes {
+        for yields in [0u8, 1] {
+            for &g in &giveup {
+                for &x in &around {
+                    for &y in &around {
+                        v.push(make_case(&[vec![x, g, y]], mb, yields, None));
+                        if yields == 0 || tier == Tier::Thorough {
+                            v.push(make_case(&[vec![x, g], vec![y]], mb, yields, None));
+                            v.push(make_case(&[vec![g, y], vec![x]], mb, yields, None));
+                        }
+                    }
+                }
+                v.push(make_case(&[vec![g, g, L::CallAddr]], mb, yields, None));
             }
         }
     }
